@@ -96,6 +96,21 @@ func (g *sg) dedupStmt(env *sgEnv, c *ast.CallExpr) (string, bool, error) {
 		return id.Name, true
 	}
 	switch {
+	case fun == "sort.Ints" && g.splitTail:
+		k, ok := c.Args[0].(*ast.Ident)
+		if _, s := env.vars["sort"]; s || g.pkgs["sort"] != "sort" || len(c.Args) != 1 || !ok || env.vars[k.Name] != stCKeys {
+			return "", true, fmt.Errorf("unsupported sort.Ints")
+		}
+		g.sortedKeys[k.Name] = true
+		return "(* " + k.Name + " sorted *)", true, nil
+	case fun == "slices.Reverse" && g.splitTail:
+		// slices.Reverse(x) on the variable of the enclosing range loop ("in place, not used elsewhere"): the
+		// element is reversed for the rest of the iteration; what else shares its backing array is not modelled
+		x, ok := c.Args[0].(*ast.Ident)
+		if _, s := env.vars["slices"]; s || g.pkgs["slices"] != "slices" || len(c.Args) != 1 || !ok || env.vars[x.Name] != stPts || !env.rangeVar[x.Name] {
+			return "", true, fmt.Errorf("unsupported slices.Reverse")
+		}
+		return fmt.Sprintf("let v_%s := (rev v_%s) in", x.Name, x.Name), true, nil
 	case fun == "copy":
 		if _, s := env.vars["copy"]; s || len(c.Args) != 2 {
 			return "", true, fmt.Errorf("unsupported copy")
@@ -180,6 +195,13 @@ func (g *sg) rangeLoop(env *sgEnv, s *ast.RangeStmt, after lcont, ctx *sgCtx) (s
 			}
 		}
 	}
+	if id, ok := s.X.(*ast.Ident); ok && env.vars[id.Name] == stCKeys {
+		if !g.sortedKeys[id.Name] {
+			return "", fmt.Errorf("range over the keys of a map that have not been sorted: the order is not defined")
+		}
+		list, elTy = "v_"+env.mapOf[id.Name], stCEntry
+		bodyEnv.keyOf[val.Name] = env.mapOf[id.Name]
+	}
 	if list == "" {
 		v, err := g.expr(env, s.X, &binds)
 		if err != nil {
@@ -193,6 +215,9 @@ func (g *sg) rangeLoop(env *sgEnv, s *ast.RangeStmt, after lcont, ctx *sgCtx) (s
 	}
 	asg := map[string]bool{}
 	sgAssigned(s.Body.List, asg)
+	if g.splitTail {
+		delete(asg, val.Name) // slices.Reverse(x) on the range variable rebinds it inside the iteration only
+	}
 	if asg["?"] || asg[val.Name] {
 		return "", fmt.Errorf("range loop: unsupported assignment target")
 	}
@@ -223,6 +248,7 @@ func (g *sg) rangeLoop(env *sgEnv, s *ast.RangeStmt, after lcont, ctx *sgCtx) (s
 	} else {
 		bodyEnv.declare(val.Name, elTy)
 	}
+	bodyEnv.rangeVar = map[string]bool{val.Name: true}
 	inner := &sgCtx{
 		ret:  func(v string) string { return "Ok (RRet " + v + ")" },
 		brk:  func() (string, error) { return "Ok (Brk " + tuple + ")", nil },
@@ -356,5 +382,91 @@ func genCleanupRing(repo string) (string, error) {
 	if err := g.function("cleanupNewRing"); err != nil {
 		return "", err
 	}
+	return g.out.String(), nil
+}
+
+// genSplitTail: the last part of splitRing (from `completeRingKeys := maps.Keys(completeRings)` on): the complete rings,
+// in increasing key order, are classified by size and winding order, and swapped when everything landed on the
+// wrong side -> gen/SplitTailGen.v.  The part before it (the ordered-map stack walk) is NOT translated.
+func genSplitTail(repo string) (string, error) {
+	g, err := sgLoad(repo)
+	if err != nil {
+		return "", err
+	}
+	g.dedup, g.splitTail, g.useExternals, g.sortedKeys = true, true, true, map[string]bool{}
+	fd, ok := g.funcs["splitRing"]
+	if !ok {
+		return "", fmt.Errorf("splitRing not found")
+	}
+	want := "func(ring [][2]float64, isOuter bool, hitMultiple map[intgeom.Point][]int, ringIdx int) (outerRings, innerRings, pointsAndLines [][][2]float64)"
+	if got := types.ExprString(fd.Type); got != want {
+		return "", fmt.Errorf("splitRing has the signature %s", got)
+	}
+	cut, mapName := -1, ""
+	for i, st := range fd.Body.List {
+		if as, ok := st.(*ast.AssignStmt); ok && as.Tok == token.DEFINE && len(as.Rhs) == 1 {
+			if c, ok := as.Rhs[0].(*ast.CallExpr); ok && types.ExprString(c.Fun) == "maps.Keys" && len(c.Args) == 1 {
+				if m, ok := c.Args[0].(*ast.Ident); ok && cut < 0 {
+					cut, mapName = i, m.Name
+				}
+			}
+		}
+	}
+	if cut < 0 {
+		return "", fmt.Errorf("splitRing: the statement `keys := maps.Keys(completeRings)` was not found")
+	}
+	// completeRings must be the map[int][][2]float64 made in the first part, and the three results must not be
+	// touched before the cut (they are nil there)
+	madeMap := false
+	var bad error
+	for _, st := range fd.Body.List[:cut] {
+		ast.Inspect(st, func(n ast.Node) bool {
+			switch n := n.(type) {
+			case *ast.AssignStmt:
+				if len(n.Lhs) == 1 && len(n.Rhs) == 1 {
+					if id, ok := n.Lhs[0].(*ast.Ident); ok && id.Name == mapName && n.Tok == token.DEFINE &&
+						types.ExprString(n.Rhs[0]) == "make(map[int][][2]float64)" {
+						madeMap = true
+					}
+				}
+			case *ast.Ident:
+				if n.Name == "outerRings" || n.Name == "innerRings" || n.Name == "pointsAndLines" {
+					bad = fmt.Errorf("splitRing: %s is used before the classification part", n.Name)
+				}
+			}
+			return true
+		})
+	}
+	if bad != nil {
+		return "", bad
+	}
+	if !madeMap {
+		return "", fmt.Errorf("splitRing: %s is not `make(map[int][][2]float64)`", mapName)
+	}
+	sig := &sgSig{name: "splitRing_tail", mutated: -1, result: stSets, retTy: stSets}
+	g.sigs["splitRing_tail"], g.cur, g.n, g.loopN, g.pre = sig, sig, 0, 0, nil
+	env := &sgEnv{vars: map[string]string{}, made: map[string]bool{}, deref: map[string]string{}, mapOf: map[string]string{}, keyOf: map[string]string{}}
+	env.declare("isOuter", stBool)
+	env.vars[mapName] = stCMap
+	lets := ""
+	for _, r := range []string{"outerRings", "innerRings", "pointsAndLines"} {
+		env.declare(r, stRings)
+		lets += "let v_" + r + " := (@nil (list pt)) in\n  "
+	}
+	fall := lcont{gen: func() (string, error) {
+		return "", fmt.Errorf("control reaches the end of the function without a return")
+	}, cheap: true}
+	body, err := g.stmts(env, fd.Body.List[cut:], fall, &sgCtx{ret: func(v string) string { return "Ok " + v }})
+	if err != nil {
+		return "", fmt.Errorf("splitRing (classification part): %v", err)
+	}
+	if g.loopN != 0 {
+		return "", fmt.Errorf("splitRing (classification part): unexpected for loop")
+	}
+	g.out.WriteString("(* GENERATED by /verif/translator (G2, error monad) from snap/snap.go on every run -- do not edit. *)\n")
+	g.out.WriteString("From Coq Require Import ZArith List Bool.\nFrom Texel Require Import Prelude.Base Prelude.GoLoop Index.Model Snap.Model.\nImport ListNotations.\nOpen Scope Z_scope.\n\n")
+	pos := g.fset.Position(fd.Body.List[cut].Pos())
+	fmt.Fprintf(&g.out, "(* %s:%d func splitRing, from this line on; v_%s = the entries of the map %s in increasing key order *)\nDefinition gen_splitRing_tail (v_isOuter : bool) (v_%s : complete) : res ringSets :=\n  %s%s.\n",
+		filepath.Base(pos.Filename), pos.Line, mapName, mapName, mapName, lets, body)
 	return g.out.String(), nil
 }
